@@ -318,7 +318,8 @@ def _job_groestl(cfg, binp, bits, b, nblocks_target, rng_seed):
     return True, "", "", 2 * len(ops)
 
 
-SINGLE_N = 2 ** 29 + 4096 + 5      # the whole-block run exceeds 2^29 bytes for every buffered prefix
+SINGLE_N = 2 ** 31 + 4096 + 5      # the whole-block run exceeds 2^31 bytes (so also 2^29 bytes = 2^32 bits) for every buffered
+                                   # prefix: bit counts in u32, byte offsets in i32 / u31 all overflow inside ONE call
 
 
 def single_expect(fam, b, w, tot):
